@@ -1,7 +1,7 @@
 (* Correspondence checker for birkhoff_von_neumann / positivity_graph (C06). *)
 From Coq Require Import ZArith QArith List Bool.
 Import ListNotations.
-From SCK Require Import FlowModel BipModel BvN2.
+From SCK Require Import FlowModel BipModel BvN2 BvNSnap.
 Local Open Scope Z_scope.
 
 (* input matrix (exact rationals), matching fuel, observed decomposition: coefficient and, per row i, the
@@ -35,3 +35,5 @@ Definition chk_pg (c : pg_case) : bool :=
   forallb (fun i => match glook g (Z.of_nat i) with
                     | Some l => lz_eqb l (adjP X n i) && negb (match l with [] => true | _ => false end)
                     | None => match adjP X n i with [] => true | _ => false end end) (seq 0 n).
+(* informational: does the exact run avoid the "almost zero" window and lines without a positive entry (the hypothesis of gen/BvnGenProof.gen_bvn_is_model)? *)
+Definition chk_bvn_ok (c : bvn_case) : bool := let '(X, ffuel, _) := c in bvn_ok ffuel X.
